@@ -78,7 +78,7 @@ session_file_storage::session_file_storage(std::string path,int concurrency_hint
 			throw cppcms_error(errno,"Memory map failed:");
 		locks_ = reinterpret_cast<pthread_mutex_t *>(memory_);
 		for(unsigned i=0;i<lock_size_;i++)
-			create_mutex(locks_+i,true);
+			create_mutex(locks_+i,true,true);
 	}
 	else {
 		mutexes_.resize(lock_size_);
@@ -115,7 +115,9 @@ pthread_mutex_t *session_file_storage::sid_to_pos(std::string const &sid)
 
 void session_file_storage::lock(std::string const &sid)
 {
-	pthread_mutex_lock(sid_to_pos(sid));
+	// when a worker process died with the mutex locked the file it worked on is
+	// in one of the states an interrupted save leaves, load and gc deal with them
+	lock_robust_mutex(sid_to_pos(sid));
 }
 
 void session_file_storage::unlock(std::string const &sid)
